@@ -14,5 +14,4 @@ def run(tier, seed):
 
 
 def replay(path, tier, seed):
-    print(open(path).read())
-    return run(tier, seed)
+    return c03.tm_replay("C04", path, tier, seed)
